@@ -3,6 +3,7 @@ import HdVerif.Proofs.SREvidenceTie
 import HdVerif.Proofs.SRDocument
 import HdVerif.Proofs.SRTree
 import HdVerif.Generated.T15c
+import HdVerif.Generated.T15k
 /-! # C15  SR documents carry their content intact with complete evidence
 
 Property theorems only.  The model is `Model/SREvidence.lean` (hand-written, tied to `/repo` by the
@@ -1194,6 +1195,31 @@ theorem search_and_parser_agree_on_nameless_items :
        | some cls => Gen.srOptionalNameClasses.contains cls
        | none => false)) ∧
     Gen.findOptionalNameValueTypes.all Gen.srValueTypes.contains = true := by
+  decide +kernel
+
+/-- **The three ways a stored document becomes an object agree on its class** (tables regenerated from `sr/sop.py` on every
+run: T15i the storage class each constructor passes on, T15k `srread`'s dispatch table and the SOP class check of each
+`from_dataset`; a trip-wire on tables, AGENT_GUIDE §3a).  For each of the three public classes: the storage class its
+constructor writes is the storage class its `from_dataset` demands (so a document parses back as the class that wrote it,
+and — after fix `7c1e231` — as no other: `EnhancedSR.from_dataset` used to accept documents of every class, among them
+Comprehensive 3D documents with SCOORD3D content), and `srread` dispatches that storage class to that class. -/
+theorem parse_entry_points_agree :
+    (["EnhancedSR", "ComprehensiveSR", "Comprehensive3DSR"].all fun cls =>
+      match Gen.srFromDatasetChecks.lookup cls with
+      | none => false
+      | some st =>
+        st != "" && Gen.srForwarded.contains (cls, "sop_class_uid", st) && Gen.srReadClassMap.lookup st == some cls) = true ∧
+    Gen.srReadClassMap.length = 3 ∧ Gen.srFromDatasetChecks.length = 3 := by
+  decide +kernel
+
+/-- **Reading a document back changes nothing on it**: `.content`, `get_evidence` and `get_evidence_series` (and every method
+of the document they call on `self`) write no attribute of the document object, set nothing through `setattr` /
+`__dict__`, carry no memoising decorator (table regenerated on every run, T15k).  So the answers of `get_evidence(…)` are
+functions of the document's evidence sequences and the flag alone, whatever was asked before (`get_evidence_spec`,
+`get_evidence_series_spec` state which functions); the correspondence asks every document twice and in both orders. -/
+theorem readers_write_nothing_on_the_document :
+    Gen.srReadersWrite.map Prod.fst = ["content", "get_evidence", "get_evidence_series"] ∧
+    ∀ row ∈ Gen.srReadersWrite, row.2 = [] := by
   decide +kernel
 
 /-- non-vacuity: a three-level tree (container > container > NUM, IMAGE without concept name > TEXT) is accepted, the IMAGE
